@@ -409,6 +409,9 @@ def rule_eqn(ctx, rep):
         got = _call(ctx, me, "_calculate_livein", key, g.blocks["C"], lo)
         rep.check(got == want, rule, f"live-in(callsub, callee has retsub and {kind})", wl, got, sorted(want),
                   why="values accepted by a program-terminating exit inside the callee are not subject to the checks after the call")
+        again = _call(ctx, me, "_calculate_livein", "GroupIndex", g.blocks["C"], lo)
+        rep.check(again == got, rule, f"live-in is a function of its arguments ({kind}, asked twice)", wl, again, got,
+                  why="the answer changes when the same question is asked again: state leaks between calls")
     # 7. merge steps: out = in ∩ block constraint; leaf blocks are not touched by the backward pass
     wm = _gen_where(ctx, "_merge_information_forward")
     me, ro = setup(g2, fn2, {"P": {1, 2, 3, 4}, "Q": {2, 5}, "J": set()}, {("J", "P"): {3, 4, 9}, ("J", "Q"): {5, 6}})
